@@ -138,6 +138,7 @@ struct TableDump {
     std::vector<ref::ItemSet> items;          // per state, in (source rule, dot, lookahead) coordinates
     std::vector<CellDump> cells;              // nstates x ncols
     std::vector<int> max_sit;                 // highest situation count in any per-state vector
+    int spurious = 0; std::string spurious_what;   // lifted frames: entries or items that mention a filler symbol no rule uses
     int nlex = 0; std::vector<uint16_t> lex_trans, lex_rec;   // the generated lexer's table (nlex x 256 transitions, first recognised term per state)
     const CellDump& at(int s, int col) const { return cells[(size_t)s * ncols + col]; }
 };
@@ -161,6 +162,7 @@ struct FrameBase {
     std::string name;
     bool custom_lexer = false;               // terms are custom_term, lexer is the scripted use_lexer<>
     bool seed_only = false;                  // registered for explicit seed grammars only, never enumerated
+    int off = 0, noff = 0;                   // lifted frames: number of unused filler terminals / nonterminals declared BEFORE the real ones (real indices are shifted up)
     virtual ~FrameBase() {}
     virtual BuildResult build(const ref::Gram& g) = 0;
     virtual void dump(TableDump& d) = 0;
@@ -174,10 +176,18 @@ struct FrameBase {
 std::vector<FrameBase*>& registry();
 
 // ------------------------------------------------------------------ the frame
-template<int NT_, int T_, typename Ar, typename Err, int MaxC> struct Frame;
+// Off / NOff: "lifted" frames declare Off filler terminals and NOff filler nonterminals in front of the real ones, so that every real
+// symbol index (and <eof>, error, the augmented root) is shifted past a 64-bit word boundary of the library's bitsets; no rule mentions a
+// filler, so the grammar, its language, its table and its diagnostics are those of the unlifted grammar. The harness keeps working in
+// unlifted coordinates: build() shifts on the way in, dump() shifts back and counts anything that mentions a filler.
+struct LiftLimits { static const size_t state_count_cap = 128; static const size_t max_sit_count_per_state_cap = 224; };
+inline const char* filler_name(int k) { static std::vector<std::string> v; if (v.empty()) for (int i = 0; i < 256; ++i) v.push_back("F" + std::to_string(i)); return v[k].c_str(); }
+template<int NT_, int T_, typename Ar, typename Err, int MaxC, int Off = 0, int NOff = 0> struct Frame;
 
-template<int NT_, int T_, int... N, int... E, int MaxC>
-struct Frame<NT_, T_, std::integer_sequence<int, N...>, std::integer_sequence<int, E...>, MaxC> : FrameBase {
+template<int NT_, int T_, int... N, int... E, int MaxC, int Off, int NOff>
+struct Frame<NT_, T_, std::integer_sequence<int, N...>, std::integer_sequence<int, E...>, MaxC, Off, NOff> : FrameBase {
+    static_assert(MaxC >= 0 || (Off == 0 && NOff == 0), "custom-lexer frames are not lifted");
+    static_assert(Off <= 128 && NOff <= 250, "filler pools");
     static constexpr int Rn = sizeof...(N);
     static constexpr int arr[Rn + 1] = {N..., 0};
     static constexpr bool is_err(int i, int j) { int code = i * 8 + j; bool r = false; ((r = r || (E == code)), ...); return r; }
@@ -192,24 +202,31 @@ struct Frame<NT_, T_, std::integer_sequence<int, N...>, std::integer_sequence<in
     };
     template<size_t> using nt_always = NTm;
     static constexpr bool Custom = MaxC < 0;
-    template<int K> using term_t = std::conditional_t<Custom, ctpg::custom_term<TermF<K>>, ctpg::typed_term<ctpg::char_term, TermF<K>>>;
+    template<int K> using term_t = std::conditional_t<Custom, ctpg::custom_term<TermF<K - Off>>, ctpg::typed_term<ctpg::char_term, TermF<K - Off>>>;   // K: position in terms(...); K - Off: the harness's term index (negative for fillers, which never match)
+    using limits_t = std::conditional_t<(Off > 0 || NOff > 0), LiftLimits, ctpg::default_limits>;
     using lexer_usage_t = std::conditional_t<Custom, ctpg::use_lexer<ScriptedLexer>, ctpg::use_generated_lexer>;
 
-    template<typename = std::make_index_sequence<T_>, typename = std::make_index_sequence<NT_>, typename = std::make_index_sequence<Rn>> struct Types;
+    template<typename = std::make_index_sequence<T_ + Off>, typename = std::make_index_sequence<NT_ + NOff>, typename = std::make_index_sequence<Rn>> struct Types;
     template<size_t... TI, size_t... NI, size_t... RI>
     struct Types<std::index_sequence<TI...>, std::index_sequence<NI...>, std::index_sequence<RI...>> {
         using terms_t = std::tuple<term_t<(int)TI>...>;
         using nterms_t = std::tuple<nt_always<NI>...>;
         using rules_t = std::tuple<typename RuleOf<(int)RI>::type...>;
-        using parser_t = ctpg::parser<NTm, terms_t, nterms_t, rules_t, lexer_usage_t, ctpg::default_limits>;
+        using parser_t = ctpg::parser<NTm, terms_t, nterms_t, rules_t, lexer_usage_t, limits_t>;
         static parser_t* make() {
             static const char* names[] = {"N0", "N1", "N2", "N3", "N4", "N5", "N6", "N7", "N8", "N9"};
             static const char* tnames[] = {"a", "b", "c", "d", "e", "f", "g", "h", "i", "j", "k", "l", "m", "n"};
-            auto mkterm = [](auto idx) { constexpr int K = decltype(idx)::value; if constexpr (Custom) return term_t<K>(tnames[K], TermF<K>{}); else return term_t<K>(ctpg::char_term(char(97 + K)), TermF<K>{}); };
+            auto mkterm = [](auto idx) {
+                constexpr int K = decltype(idx)::value;
+                if constexpr (Custom) return term_t<K>(tnames[K], TermF<K>{});
+                else if constexpr (K < Off) return term_t<K>(ctpg::char_term(char(0x80 + K)), TermF<K - Off>{});   // filler: a byte no explored input contains
+                else return term_t<K>(ctpg::char_term(char(97 + K - Off)), TermF<K - Off>{});
+            };
             terms_t ts{mkterm(std::integral_constant<int, (int)TI>{})...};
-            nterms_t ns{NTm(names[NI])...};
+            nterms_t ns{NTm((int)NI < NOff ? filler_name((int)NI) : names[(int)NI - NOff])...};
             rules_t rs{RuleOf<(int)RI>::make()...};
-            return new parser_t(NTm("N0"), ts, ns, std::move(rs), lexer_usage_t{});
+            if constexpr (Off > 0 || NOff > 0) return new parser_t(NTm("N0"), ts, ns, std::move(rs), lexer_usage_t{}, limits_t{});
+            else return new parser_t(NTm("N0"), ts, ns, std::move(rs), lexer_usage_t{});
         }
     };
     using P = typename Types<>::parser_t;
@@ -219,12 +236,14 @@ struct Frame<NT_, T_, std::integer_sequence<int, N...>, std::integer_sequence<in
     void* sa_mem = nullptr;
 
     Frame() {
-        NT = NT_; T = T_; R = Rn; max_cstr = MaxC < 0 ? 0 : MaxC; custom_lexer = Custom;
+        NT = NT_; T = T_; R = Rn; max_cstr = MaxC < 0 ? 0 : MaxC; custom_lexer = Custom; off = Off; noff = NOff;
         for (int i = 0; i < Rn; ++i) { arity.push_back(arr[i]); std::vector<char> e; for (int j = 0; j < arr[i]; ++j) e.push_back(is_err(i, j)); iserr.push_back(e); }
         name = "NT" + std::to_string(NT) + "T" + std::to_string(T) + "[";
         for (int i = 0; i < Rn; ++i) { name += std::to_string(arr[i]); }
         name += "]";
         if (Custom) name += "L";
+        if (Off) name += "+t" + std::to_string(Off);
+        if (NOff) name += "+n" + std::to_string(NOff);
         for (int i = 0; i < Rn; ++i) for (int j = 0; j < arr[i]; ++j) if (is_err(i, j)) name += "e" + std::to_string(i) + std::to_string(j);
         p = Types<>::make();
         sa_mem = ::operator new(sizeof(SA));
@@ -242,16 +261,17 @@ struct Frame<NT_, T_, std::integer_sequence<int, N...>, std::integer_sequence<in
             for (int j = 0; j < (int)P::max_rule_element_count; ++j) gi.right_sides[i][j] = symbol{};
             for (int j = 0; j < g.n[i]; ++j) {
                 int s = g.rhs[i][j];
-                gi.right_sides[i][j] = ref::Gram::is_term(s) ? symbol{true, ctpg::size16_t(ref::Gram::term_of(s))} : symbol{false, ctpg::size16_t(s)};
+                gi.right_sides[i][j] = ref::Gram::is_term(s) ? symbol{true, ctpg::size16_t(Off + ref::Gram::term_of(s))} : symbol{false, ctpg::size16_t(NOff + s)};
             }
-            gi.rule_infos[i] = {ctpg::size16_t(g.lhs[i]), ctpg::size16_t(i), ctpg::size16_t(g.n[i])};
+            gi.rule_infos[i] = {ctpg::size16_t(NOff + g.lhs[i]), ctpg::size16_t(i), ctpg::size16_t(g.n[i])};
         }
         for (int j = 0; j < (int)P::max_rule_element_count; ++j) gi.right_sides[Rn][j] = symbol{};
-        gi.right_sides[Rn][0] = symbol{false, 0};
-        gi.rule_infos[Rn] = {ctpg::size16_t(NT_), ctpg::size16_t(Rn), 1};
+        gi.right_sides[Rn][0] = symbol{false, ctpg::size16_t(NOff)};
+        gi.rule_infos[Rn] = {ctpg::size16_t(NOff + NT_), ctpg::size16_t(Rn), 1};
+        for (int t = 0; t < Off; ++t) { gi.term_precedences[t] = 0; gi.term_associativities[t] = ctpg::associativity::no_assoc; }
         for (int t = 0; t < T_; ++t) {
-            gi.term_precedences[t] = g.tprec[t];
-            gi.term_associativities[t] = g.tassoc[t] == ref::LTOR ? ctpg::associativity::ltor : g.tassoc[t] == ref::RTOL ? ctpg::associativity::rtol : ctpg::associativity::no_assoc;
+            gi.term_precedences[Off + t] = g.tprec[t];
+            gi.term_associativities[Off + t] = g.tassoc[t] == ref::LTOR ? ctpg::associativity::ltor : g.tassoc[t] == ref::RTOL ? ctpg::associativity::rtol : ctpg::associativity::no_assoc;
         }
         for (int i = 0; i <= Rn; ++i) {
             gi.rule_last_terms[i] = p->calculate_rule_last_term(ctpg::size16_t(i), ctpg::size16_t(i == Rn ? 1 : g.n[i]));
@@ -281,20 +301,28 @@ struct Frame<NT_, T_, std::integer_sequence<int, N...>, std::integer_sequence<in
     int last_max_sit = 0;
 
     void dump(TableDump& d) override {
-        d.nstates = p->state_count; d.ncols = (int)P::symbol_count;
+        d.nstates = p->state_count; d.ncols = NT_ + 1 + T_ + 2;   // unlifted coordinates: nonterminals 0..NT_ (augmented root last), then terminals 0..T_+1
         d.items.assign(d.nstates, ref::ItemSet{});
         d.cells.assign((size_t)d.nstates * d.ncols, CellDump{});
         d.max_sit.assign(1, last_max_sit);
+        d.spurious = 0; d.spurious_what.clear();
+        auto spur = [&](const std::string& w) { if (!d.spurious++) d.spurious_what = w; };
         for (int s = 0; s < d.nstates; ++s) {
             for (ctpg::size32_t i = 0; i < P::situation_address_space_size; ++i) if (p->states[s].test(i)) {
                 auto info = P::make_situation_info(i);
                 int r = p->gi.rule_infos[info.rule_info_idx].r_idx;
-                if (info.after <= ref::MAXL && info.t < ref::MAXT + 2 && r <= ref::MAXR)
-                    d.items[s].set(ref::item_code(r, info.after, info.t));
+                if ((int)info.t < Off) { spur("state " + std::to_string(s) + ": an item of rule " + std::to_string(r) + " has lookahead term index " + std::to_string(info.t) + ", a terminal no rule mentions"); continue; }
+                int t = (int)info.t - Off;
+                if (info.after <= ref::MAXL && t < ref::MAXT + 2 && r <= ref::MAXR)
+                    d.items[s].set(ref::item_code(r, info.after, t));
             }
-            for (int c = 0; c < d.ncols; ++c) {
+            for (int c = 0; c < (int)P::symbol_count; ++c) {
                 const auto& e = p->parse_table[s][c];
-                d.cells[(size_t)s * d.ncols + c] = CellDump{uint8_t(e.kind), e.arg, sr_flag_of(e, 0), int16_t(e.arg < P::rule_count ? p->gi.rule_infos[e.arg].r_idx : -1)};
+                int cc;   // compact column
+                if (c < (int)P::nterm_count) cc = c < NOff ? -1 : c - NOff;
+                else { int t = c - (int)P::nterm_count; cc = t < Off ? -1 : NT_ + 1 + (t - Off); }
+                if (cc < 0) { if (int(e.kind) != 0) spur("state " + std::to_string(s) + ": the table has an action (kind " + std::to_string(int(e.kind)) + ") in the column of " + (c < (int)P::nterm_count ? "nonterminal" : "terminal") + " index " + std::to_string(c < (int)P::nterm_count ? c : c - (int)P::nterm_count) + ", a symbol no rule mentions"); continue; }
+                d.cells[(size_t)s * d.ncols + cc] = CellDump{uint8_t(e.kind), e.arg, sr_flag_of(e, 0), int16_t(e.arg < P::rule_count ? p->gi.rule_infos[e.arg].r_idx : -1)};
             }
         }
         d.nlex = 0; d.lex_trans.clear(); d.lex_rec.clear();
